@@ -175,7 +175,7 @@ pub fn cmap_soup(r: &mut Rng) -> Vec<u8> {
                 let n = [0u32, 1, 2, 100, 101][r.below(5) as usize];
                 if r.below(2) == 0 {
                     t.extend_from_slice(format!("{} beginbfrange\n", n).as_bytes());
-                    for _ in 0..r.below(4) { t.extend_from_slice(*r.pick(&[&b"<0000> <FFFF> <0000>\n"[..], b"<FFFF> <0000> <0041>\n", b"<00> <FFFF> <D83DDE00>\n", b"<0010> <0020> [<0041>]\n", b"<0010> <0012> [<0041> <0042> <0043> <0044>]\n", b"<0000> <FFFF> <FFFF>\n", b"<0000> <0010>\n", b"<0000> <00FF> <DBFF>\n", b"<0000> <FFFF> <00FFFFFF>\n"])); }
+                    for _ in 0..r.below(4) { t.extend_from_slice(*r.pick(&[&b"<0000> <FFFF> <0000>\n"[..], b"<FFFF> <0000> <0041>\n", b"<00> <FFFF> <D83DDE00>\n", b"<0010> <0020> [<0041>]\n", b"<0010> <0012> [<0041> <0042> <0043> <0044>]\n", b"<0000> <FFFF> <FFFF>\n", b"<0000> <0010>\n", b"<0000> <00FF> <DBFF>\n", b"<0000> <FFFF> <00FFFFFF>\n", b"<0041> <0043> <>\n", b"<> <> <>\n", b"<0041> <> <0041>\n", b"<0041> <0043> []\n", b"<0041> <0043> [<>]\n", b"<0041> <0043> [<0041> <>]\n"])); }
                     t.extend_from_slice(b"endbfrange\n");
                 } else {
                     t.extend_from_slice(format!("{} beginbfchar\n", n).as_bytes());
@@ -209,6 +209,28 @@ fn typed_text_case(r: &mut Rng) -> Vec<u8> {
     let set_stream = |objs: &mut Vec<(u32, Obj)>, nr: u32, data: Vec<u8>| { if let Some((_, Obj::Stream(d, old))) = objs.iter_mut().find(|(n, _)| *n == nr) { d.retain(|(k, _)| k != b"Filter"); *old = data; } };
     if r.below(2) == 0 { let t = cmap_soup(r); set_stream(&mut objs, 14, t); }
     if r.below(2) == 0 { let t = ps_soup(r); set_stream(&mut objs, 24, t); }
+    // predictor streams whose decoded length is not a whole number of rows (every remainder 0..=row length, row tags 0..4 and beyond)
+    if r.below(2) == 0 {
+        let cols = *r.pick(&[1usize, 2, 4, 7, 16]);
+        let (colors, bpc) = *r.pick(&[(1usize, 8usize), (3, 8), (1, 1), (3, 4), (4, 16)]);
+        let row = (cols * colors * bpc + 7) / 8;
+        let pred = *r.pick(&[12i64, 10, 15, 2, 11]);
+        let stride = if pred >= 10 { row + 1 } else { row };
+        let n = r.below(4) as usize * stride + r.below(stride as u64 + 2) as usize;
+        let mut raw: Vec<u8> = (0..n).map(|_| r.next_u64() as u8).collect();
+        if pred >= 10 { let mut k = 0; while k < raw.len() { raw[k] = *r.pick(&[0u8, 1, 2, 3, 4, 4, 5, 255]); k += stride; } }
+        let lzw = r.below(3) == 0;
+        let data = if lzw { let mut s = crate::tape::Src::replay(&[]); crate::refimpl::codec::lzw_encode(&raw, 1, &mut s) } else { miniz_oxide::deflate::compress_to_vec_zlib(&raw, 6) };
+        let parms = dict(vec![("Predictor", Obj::Int(pred)), ("Columns", Obj::Int(cols as i64)), ("Colors", Obj::Int(colors as i64)), ("BitsPerComponent", Obj::Int(bpc as i64))]);
+        for nr in [6u32, 15] {
+            if let Some((_, Obj::Stream(d, old))) = objs.iter_mut().find(|(n, _)| *n == nr) {
+                d.retain(|(k, _)| k != b"Filter" && k != b"DecodeParms");
+                d.push((b"Filter".to_vec(), name(if lzw { "LZWDecode" } else { "FlateDecode" })));
+                d.push((b"DecodeParms".to_vec(), parms.clone()));
+                *old = data.clone();
+            }
+        }
+    }
     // dates and text strings in annotation, embedded-file parameters, outline titles, field names
     if let Some((_, o)) = objs.iter_mut().find(|(n, _)| *n == 45) { o.set("M", Obj::Str(date_soup(r))); o.set("Contents", Obj::Str(text_string_soup(r))); }
     if let Some((_, Obj::Stream(d, _))) = objs.iter_mut().find(|(n, _)| *n == 32) { d.retain(|(k, _)| k != b"Params"); d.push((b"Params".to_vec(), dict(vec![("Size", Obj::Int(5)), ("CreationDate", Obj::Str(date_soup(r))), ("ModDate", Obj::Str(date_soup(r)))]))); }
